@@ -49,16 +49,16 @@ func (c c03Opts) registry() *minify.M {
 }
 
 type hWordGap struct {
-	word    string // "" for the leading pseudo word
-	ctx     string // path of enclosing elements (names)
-	ws      bool   // whitespace in the gap BEFORE this word
-	brk     bool   // break boundary in the gap BEFORE this word
-	pre     bool
+	word string // "" for the leading pseudo word
+	ctx  string // path of enclosing elements (names)
+	ws   bool   // whitespace in the gap BEFORE this word
+	brk  bool   // break boundary in the gap BEFORE this word
+	pre  bool
 }
 
 type hFlat struct {
-	structure []string    // O/C sequence with names
-	attrs     [][]hAttr   // per open event
+	structure []string  // O/C sequence with names
+	attrs     [][]hAttr // per open event
 	opens     []string
 	words     []hWordGap
 	tailWS    bool
@@ -665,7 +665,9 @@ func C03(run *core.Run) {
 func init() {
 	Children["c03debug"] = func(args []string) {
 		b, _ := os.ReadFile(args[0])
-		var rp struct{ Witness struct{ Input, Output string } }
+		var rp struct {
+			Witness struct{ Input, Output string }
+		}
 		json.Unmarshal(b, &rp)
 		for _, doc := range []string{rp.Witness.Input, rp.Witness.Output} {
 			evs, _ := htmlEvents(doc)
